@@ -458,6 +458,17 @@ public:
                 op.allow = A_UPSERT;
             op.v   = fresh_vid();
             op.ttl = pick_ttl();
+            if (plan.profile == P_SPREAD && !noinsr)
+            {
+                // the same insert issued through the range form (one element, so the victim stays identifiable)
+                Item it;
+                it.k   = op.k;
+                it.v   = op.v;
+                it.ttl = op.ttl;
+                op.items.push_back(it);
+                op.kind = INSR;
+                op.v    = rng.below(4);
+            }
             return op;
         }
         if (take(wINSR))
